@@ -603,12 +603,3 @@ package ast
 //@   modifies Opt
 //@   ensures [kept C13] InnerOK(r.ruleUsesRules) && InnerOK(r.ruleUsedByRules)
 //@   safety C13
-
-// Optimize: the entry of -optimize-grammar (C13: no panic; its fixpoint loop's termination is NOT claimed)
-//@ extern newGrammarOptimizer(protectedRules []string) (r *grammarOptimizer)
-//@   ensures r != nil && fresh(r) && OptOK(r) && r.rules != nil && InnerOK(r.ruleUsesRules) && InnerOK(r.ruleUsedByRules) && r.ruleUsesRules != r.ruleUsedByRules
-//@ func Optimize(g *Grammar, alternateEntrypoints []string)
-//@   requires [node] g != nil && TreeWF()
-//@   modifies Tree, Opt
-//@   loop#1 invariant [ctx] r != nil && g != nil && TreeWF()
-//@   safety C13
